@@ -140,6 +140,14 @@ def tail_descriptor(rows: List[codec.WRow], fn: Optional[ast.FunctionDef] = None
                         it = subst_locals(fn, it)
                     d["cval_list"] = _attached_list(it)
                     d["cval_var"] = loop.split(" in ", 1)[0][4:]
+                    if d["cval_list"] is None and norm(it).endswith(".controllers.items()"):
+                        # for n, c in M.controllers.items(): if c.attached(M): …   (the selection written as a guard of the loop body)
+                        tv = [x.strip(" ()") for x in d["cval_var"].split(",")]
+                        if len(tv) == 2:
+                            for g_ in r.guards:
+                                gt = _norm_recv(g_)
+                                if re.fullmatch(rf"{re.escape(tv[1])}\.attached\(M\)", gt):
+                                    d["cval_list"] = (_norm_recv(norm(it)), "c.attached(M)")
                     first = d["cval_var"].split(",")[0].strip().strip("(")
                     if first.isidentifier() and d["cval_src"]:
                         d["cval_src"] = re.sub(rf"\b{re.escape(first)}\b", "name", d["cval_src"])      # the loop variable's name is immaterial
